@@ -1072,12 +1072,18 @@ fn eq(lhs: &Value, rhs: &Value) -> StdResult<bool, (String, String, String)> {
                 return Ok(true);
             }
 
-            if lock_deref!(xs).len() != lock_deref!(ys).len() {
+            // We compare snapshots of the items so that no lock is held
+            // while recursing; otherwise comparing a list with a list that
+            // contains it would attempt to lock the same list twice.
+            let xs = lock_deref!(xs).clone();
+            let ys = lock_deref!(ys).clone();
+
+            if xs.len() != ys.len() {
                 return Ok(false);
             }
 
-            for (i, x) in lock_deref!(xs).iter().enumerate() {
-                let y = &lock_deref!(ys)[i];
+            for (i, x) in xs.iter().enumerate() {
+                let y = &ys[i];
 
                 let equal =
                     match eq(&x.v, &y.v) {
@@ -1102,12 +1108,16 @@ fn eq(lhs: &Value, rhs: &Value) -> StdResult<bool, (String, String, String)> {
                 return Ok(true);
             }
 
-            if lock_deref!(xs).len() != lock_deref!(ys).len() {
+            // As with lists, we compare snapshots so that no lock is held
+            // while recursing.
+            let xs = lock_deref!(xs).clone();
+            let ys = lock_deref!(ys).clone();
+
+            if xs.len() != ys.len() {
                 return Ok(false);
             }
 
-            for (k, x) in &lock_deref!(xs) {
-                let ys = &lock_deref!(ys);
+            for (k, x) in &xs {
                 let y =
                     if let Some(y) = ys.get(k) {
                         y
